@@ -9,7 +9,8 @@ TECHNIQUE = ("property-based testing (Hypothesis) against the listing reference 
              "are flattened to per-instruction function attribution and compared with the edited listing")
 RULE = ("cases as in C01 with 0-4 functions per code section (adjacent, interleaved with function-less code and data, "
         "multi-entry), edits at function boundaries and whole-block / whole-function deletions (with and without "
-        "retarget_to_proxy). After apply(): every surviving instruction belongs to the function it belonged to, patch "
+        "retarget_to_proxy), plus 0-2 functions added with register_insert_function (single- and multi-block bodies: in all "
+        "three tables with their symbol as name and entry, all inserted code blocks and the exact body bytes). After apply(): every surviving instruction belongs to the function it belonged to, patch "
         "code to the function of the block it was inserted into, data to none; no block in two functions; entries are a "
         "subset of blocks; the three tables have the same keys; functions without instructions are gone; entry "
         "promotion only within the same function. Non-trivial = an edit touches the first or last block of a function "
